@@ -49,7 +49,13 @@ def check_truncation(idx: Index, rep: Report) -> None:
                     a0 = c.args[0]
                     if isinstance(a0, ast.Constant) or unparse(a0).endswith(".value.data") and "(" not in unparse(a0):
                         continue  # literal or pass-through of an existing attribute's payload
-                    computed = isinstance(a0, (ast.BinOp, ast.Call)) or (isinstance(a0, ast.Name) and a0.id in ("res", "result", "value", "val", "folded"))
+                    computed = isinstance(a0, (ast.BinOp, ast.Call))
+                    if isinstance(a0, ast.Name):
+                        # a local is a computed integer when some binding of it is an arithmetic expression / call result
+                        # (or when it is a parameter carrying a folded Python value)
+                        binds = [s_.value for s_ in walk_local(f.node) if isinstance(s_, (ast.Assign, ast.AnnAssign, ast.AugAssign)) and s_.value is not None and any(isinstance(t_, ast.Name) and t_.id == a0.id for t_ in (s_.targets if isinstance(s_, ast.Assign) else [s_.target]))]
+                        is_param = a0.id in {p_.arg for p_ in f.node.args.args}
+                        computed = any(isinstance(v_, (ast.BinOp, ast.Call, ast.UnaryOp, ast.IfExp)) for v_ in binds) or any(isinstance(s_, ast.AugAssign) and isinstance(s_.target, ast.Name) and s_.target.id == a0.id for s_ in walk_local(f.node)) or (is_param and a0.id in ("res", "result", "value", "val", "folded"))
                     if not computed:
                         continue
                     sites.append((f, c))
@@ -217,7 +223,13 @@ def check_tables(idx: Index, rep: Report) -> None:
     # reflexive predicates
     cmpi = _str_list(idx, AR, "CMPI_COMPARISON_OPERATIONS")
     g = idx.func(CP, "ApplyCmpiPredicateToEqualOperands.match_and_rewrite")
-    m = re.search(r"val = op\.predicate\.value\.data in \(([\d, ]+)\)", unparse(g.node))
+    m = re.search(r"\b\w+ = op\.predicate\.value\.data in [\(\[\{]([\d, ]+)[\)\]\}]", unparse(g.node))
+    if not m:
+        # a module-level literal collection used as `op.predicate.value.data in <NAME>`
+        for nm_, v_ in idx.module(CP).assigns.items():
+            lit = v_.args[0] if isinstance(v_, ast.Call) and unparse(v_.func) in ("frozenset", "set", "tuple") and len(v_.args) == 1 else v_
+            if isinstance(lit, (ast.Tuple, ast.List, ast.Set)) and all(isinstance(e_, ast.Constant) and isinstance(e_.value, int) for e_ in lit.elts) and re.search(rf"op\.predicate\.value\.data in {nm_}\b", unparse(g.node)):
+                m = re.match(r"(.*)", ", ".join(str(e_.value) for e_ in lit.elts))  # type: ignore[attr-defined]
     if not m:
         raise AnalysisError(f"{g.fq}: reflexive predicate set not recognised")
     have = {int(x) for x in m.group(1).replace(" ", "").split(",") if x}
@@ -580,13 +592,16 @@ def check_divf_zero(idx: Index, rep: Report) -> None:
     rhs = f.node.args.args[2].arg
     lhs = f.node.args.args[1].arg
     n = 0
+    # the local holding the folded value: what the resulting FloatAttr is built from
+    fa = [c_ for c_ in calls_in(f.node) if call_attr(c_) == "FloatAttr" and c_.args and isinstance(c_.args[0], ast.Name)]
+    valn = fa[0].args[0].id if fa else "val"
     for pth in enum_paths(f.node):
         if not pth.feasible():
             continue
         nf = pth.nfacts()
         if (f"{rhs}.value.data == 0.0", True) not in nf or not any("DivfOp" in t_ and p_ for t_, p_ in nf):
             continue
-        vals = [e_ for e_ in pth.effects if isinstance(e_, ast.Assign) and unparse(e_.targets[0]) == "val"]
+        vals = [e_ for e_ in pth.effects if isinstance(e_, ast.Assign) and unparse(e_.targets[0]) == valn]
         if not vals:
             continue
         n += 1
